@@ -9,10 +9,12 @@ import (
 )
 
 // ReorderConn wraps a PacketConn and, with probability Pct/100, delivers a datagram AFTER
-// the one that follows it (adjacent swap), as a network may. Nothing is dropped or altered.
+// the one that follows it (adjacent swap), as a network may, and with probability Dup/100
+// delivers a datagram twice in a row. Nothing is dropped or altered.
 type ReorderConn struct {
 	net.PacketConn
 	Pct int
+	Dup int
 	mu  sync.Mutex
 	rng *rand.Rand
 	// a datagram held back, to be returned by the next ReadFrom
@@ -54,6 +56,13 @@ func (c *ReorderConn) ReadFrom(p []byte) (int, net.Addr, error) {
 	swap := c.rng.Intn(100) < c.Pct
 	c.mu.Unlock()
 	n, addr, err := c.PacketConn.ReadFrom(p)
+	if err == nil && !swap && c.Dup > 0 {
+		c.mu.Lock()
+		if c.rng.Intn(100) < c.Dup {
+			c.held, c.heldAddr = append([]byte(nil), p[:n]...), addr // delivered again by the next read
+		}
+		c.mu.Unlock()
+	}
 	if err != nil || !swap {
 		return n, addr, err
 	}
